@@ -43,39 +43,54 @@ def g_term(t):
     return "(G %s %s)" % (node, lst(g_term(c) for c in ch))
 
 
-def notif_term(n):
+class GTable:
+    """graphs of one case, written once; operations and maintainers refer to them by index"""
+
+    def __init__(self):
+        self.idx = {}
+        self.terms = []
+
+    def ref(self, g):
+        k = json.dumps(g)
+        if k not in self.idx:
+            self.idx[k] = len(self.terms)
+            self.terms.append(g_term(g))
+        return self.idx[k]
+
+
+def notif_term(n, gt):
     if n[0] == "U":
         _, hid, tid, dsp, rc = n
         if min(hid, tid, dsp, rc) < 0:
-            return "(NForeign 99)"
-        return "(NUser (%d, %d, %d) %d)" % (hid, tid, dsp, rc)
+            return "(RForeign 99)"
+        return "(RUser (ky %d %d %d) %d)" % (hid, tid, dsp, rc)
     if n[0] == "M":
         _, mk, g, hid, tid, dsp = n
         if min(hid, tid, dsp) < 0 or mk not in MK or '"?"' in json.dumps(g):
-            return "(NForeign 98)"
-        return "(NMaint %s %s (%d, %d, %d))" % (MK[mk], g_term(g), hid, tid, dsp)
-    return "(NForeign %d)" % n[1]
+            return "(RForeign 98)"
+        return "(RMaint %s %d (ky %d %d %d))" % (MK[mk], gt.ref(g), hid, tid, dsp)
+    return "(RForeign %d)" % n[1]
 
 
-def snap_term(s):
-    return lst("((%d, %d), %s)" % (o, f, lst(notif_term(n) for n in ns)) for o, f, ns in s)
+def snap_term(s, gt):
+    return lst("(se %d %d %s)" % (o, f, lst(notif_term(n, gt) for n in ns)) for o, f, ns in s)
 
 
 def op_graphs(op, ob):
     return ob["graphs"] if op[5] is not None else op[4]
 
 
-def op_term(op, ob):
+def op_term(op, ob, gt):
     k = op[0]
     if k in ("Reg", "Unreg"):
-        return "(%s %d %d %d %s)" % ("Register" if k == "Reg" else "Unregister", op[1], op[2], op[3],
-                                      lst(g_term(g) for g in op_graphs(op, ob)))
+        return "(%s %d %d %d %s)" % ("RRegister" if k == "Reg" else "RUnregister", op[1], op[2], op[3],
+                                      lst(str(gt.ref(g)) for g in op_graphs(op, ob)))
     if k == "Change":
-        return "(Change %d %d)" % (op[1], op[2])
+        return "(RChange %d %d)" % (op[1], op[2])
     if k == "CollectOwner":
-        return "(CollectOwner %d)" % op[1]
+        return "(RCollectOwner %d)" % op[1]
     if k == "CollectObj":
-        return "(CollectObj %d)" % op[1]
+        return "(RCollectObj %d)" % op[1]
     raise ValueError(op)
 
 
@@ -86,21 +101,21 @@ def heap_term(case, obs):
         links = []
         for nm in ("f", "g"):
             if nm in names and d.get(nm) is not None:
-                links.append("(%d, [%d])" % (FNUM[nm], d[nm]))
-        links.append("(%d, [%d])" % (FNUM["kids"], 5 + 3 * i))
+                links.append("(lk %d [%d])" % (FNUM[nm], d[nm]))
+        links.append("(lk %d [%d])" % (FNUM["kids"], 5 + 3 * i))
         if "m" in names:
-            links.append("(%d, [%d])" % (FNUM["m"], 5 + 3 * i + 1))
-            links.append("(%d, [%d])" % (FNUM["s"], 5 + 3 * i + 2))
+            links.append("(lk %d [%d])" % (FNUM["m"], 5 + 3 * i + 1))
+            links.append("(lk %d [%d])" % (FNUM["s"], 5 + 3 * i + 2))
         if d.get("w") in ("plain", "pylist"):
-            links.append("(%d, [%d])" % (FNUM["w"], 20 + i))
+            links.append("(lk %d [%d])" % (FNUM["w"], 20 + i))
         for nm in ("value", "value2"):
             if nm in names:
-                links.append("(%d, [%d])" % (FNUM[nm], 25))      # an int object: not observable further
-        ds.append("(%d, KObj, %s, %s, [])" % (i, lst(str(x) for x in [1] + [FNUM[n] for n in names]), lst(links)))
+                links.append("(lk %d [%d])" % (FNUM[nm], 25))      # an int object: not observable further
+        ds.append("(od %d KObj %s %s [])" % (i, lst(str(x) for x in [1] + [FNUM[n] for n in names]), lst(links)))
         for c, ck in ((0, "CList"), (1, "CDict"), (2, "CSet")):
             oid = 5 + 3 * i + c
             if str(oid) in obs["items"]:
-                ds.append("(%d, KCont %s, [], [], %s)" % (oid, ck, lst(str(x) for x in obs["items"][str(oid)])))
+                ds.append("(od %d (KCont %s) [] [] %s)" % (oid, ck, lst(str(x) for x in obs["items"][str(oid)])))
     return lst(ds)
 
 
@@ -108,26 +123,28 @@ def univ_term(case):
     us = []
     for i, d in enumerate(case["objs"]):
         for nm in TRAITS[d["cls"]]:
-            us.append("(%d, %d)" % (i, FNUM[nm]))
-        us.append("(%d, 1)" % i)
-        us.append("(%d, %d)" % (i, F_OBJ))
-        us.append("(%d, 0)" % (5 + 3 * i))
+            us.append("(ov %d %d)" % (i, FNUM[nm]))
+        us.append("(ov %d 1)" % i)
+        us.append("(ov %d %d)" % (i, F_OBJ))
+        us.append("(ov %d 0)" % (5 + 3 * i))
         if d["cls"] == "N":
-            us.append("(%d, 0)" % (5 + 3 * i + 1))
-            us.append("(%d, 0)" % (5 + 3 * i + 2))
+            us.append("(ov %d 0)" % (5 + 3 * i + 1))
+            us.append("(ov %d 0)" % (5 + 3 * i + 2))
     return lst(us)
 
 
 def to_term(case, obs):
+    gt = GTable()
     hs = []
     for op, ob in zip(case["ops"], obs["hist"]):
         d = ob["snap"]       # the driver reports only the lists that changed in this step
         out = "None" if ob["out"] == "Ok" else "(Some %s)" % EXN.get(ob["out"], "OtherError")
         dead = "None" if ob["dead"] is None else "(Some %s)" % b(ob["dead"])
-        hs.append("(%s, mkI %s %s %s %s)" % (op_term(op, ob), out, lst(str(c) for c in ob["calls"]),
-                                            snap_term(d), dead))
-    return Raw("(mkCase %s %s %s %s %s)%%nat" % (heap_term(case, obs), univ_term(case), snap_term(obs["init"]),
-                                               lst(hs), b(obs["pool_collected"])))
+        hs.append("(hs %s (mkRI %s %s %s %s))" % (op_term(op, ob, gt), out, lst(str(c) for c in ob["calls"]),
+                                             snap_term(d, gt), dead))
+    init = snap_term(obs["init"], gt)
+    return Raw("(mkCase %s %s %s %s %s %s)%%nat" % (heap_term(case, obs), univ_term(case), lst(gt.terms), init,
+                                                  lst(hs), b(obs["pool_collected"])))
 
 
 # ---------------------------------------------------------------- reporting
@@ -212,7 +229,30 @@ def gen_graph(rnd, depth, bad):
             return N_(fld, notify, rnd.random() < 0.15, items_dsl(ch, notify))
         return N_(fld, notify, rnd.random() < 0.15, [inner])
 
-    return sub(depth)
+    return canon_graph(sub(depth))
+
+
+def canon_graph(g):
+    """children in one canonical order and without duplicates: ObserverGraph compares children as sets
+    (and refuses duplicates), the model compares them as lists"""
+    kind, a, notify, optional, ch = g
+    cs = []
+    for c in sorted((canon_graph(c) for c in ch), key=json.dumps):
+        if c not in cs:
+            cs.append(c)
+    return [kind, a, notify, optional, cs]
+
+
+TEXTS = ["value", "f.value", "f:value", "f.g.value", "kids.items.value2", "kids:items:value2", "f.kids.items.value2",
+         "m.items.value2", "s.items.value2", "[f,g].value2", "kids.items.f.value2", "[value2, f.value2]",
+         "kids.items.value", "value, nonexist", "w.value", "[f,g].value", "f.nonexist", "kids.items.g.value",
+         "m.items.value", "f.items.value", "value2, f.value2, kids.items.value"]
+
+
+def mk_reg(kind, root, hid, dsp, gs):
+    if isinstance(gs, str):
+        return [kind, root, hid, 0, None, gs]
+    return [kind, root, hid, dsp, gs, None]
 
 
 def gen_case(rnd, ctx, maxlen):
@@ -243,6 +283,12 @@ def gen_case(rnd, ctx, maxlen):
             if g not in gs:
                 gs.append(g)
         graphsets.append(gs)
+    # mini-language texts (compiled by the implementation; the driver reports the resulting graphs).  A case
+    # uses either texts or generated graph objects, never both: ObserverGraph compares children as sets, the
+    # model as lists, and only within one source is "equal as sets" the same as "equal as lists".
+    if rnd.random() < 0.25:
+        graphsets = [rnd.choice(TEXTS if bad else TEXTS[:12]) for _ in range(rnd.randint(1, 4))]
+    ctx.count("graphs-from:" + ("text" if isinstance(graphsets[0], str) else "objects"))
     incoming = set()
     for i, d in enumerate(objs):
         for j in [d.get("f"), d.get("g")]:
@@ -257,8 +303,8 @@ def gen_case(rnd, ctx, maxlen):
     for _ in range(rnd.randint(1, maxlen)):
         r = rnd.random()
         if r < 0.38 and live_h and live_o:
-            op = ["Reg", rnd.choice(live_o[:2] if rnd.random() < 0.7 else live_o), rnd.choice(live_h),
-                  rnd.randint(0, 1), rnd.choice(graphsets), None]
+            op = mk_reg("Reg", rnd.choice(live_o[:2] if rnd.random() < 0.7 else live_o), rnd.choice(live_h),
+                        rnd.randint(0, 1), rnd.choice(graphsets))
             regs.append(op)
         elif r < 0.70 and live_h and live_o:
             cand = [x for x in regs if x[1] in live_o and x[2] in live_h]
@@ -267,7 +313,7 @@ def gen_case(rnd, ctx, maxlen):
                 regs.remove(x)
                 op = ["Unreg"] + x[1:]
             else:
-                op = ["Unreg", rnd.choice(live_o), rnd.choice(live_h), rnd.randint(0, 1), rnd.choice(graphsets), None]
+                op = mk_reg("Unreg", rnd.choice(live_o), rnd.choice(live_h), rnd.randint(0, 1), rnd.choice(graphsets))
         elif r < 0.93 and live_o:
             i = rnd.choice(live_o)
             names = [x for x in ("value", "value2") if x in TRAITS[objs[i]["cls"]]]
@@ -284,7 +330,7 @@ def gen_case(rnd, ctx, maxlen):
             live_o.remove(i)
             op = ["CollectObj", i]
         ops.append(op)
-        ctx.count("op:" + op[0])
+        ctx.count("op:" + op[0] + ("(text)" if op[0] in ("Reg", "Unreg") and op[5] is not None else ""))
     if not ops:
         ops = [["Change", 0, FNUM["value2"]]]
     ctx.count("history-length:%02d" % len(ops))
@@ -358,7 +404,7 @@ def run(ctx):
                        "duplicates and cycles; 1-3 handlers (function / bound method) x 2 dispatchers; a case is "
                        "non-trivial if some step raises or calls a handler; distinct = distinct (pool, handlers, history)")
     rnd = random.Random(ctx.seed)
-    n, maxlen = (700, 10) if ctx.tier == "quick" else (12000, 24)
+    n, maxlen = (700, 10) if ctx.tier == "quick" else (9000, 20)
     if ctx.replay:
         cases = [json.load(open(ctx.replay))["replay"]["case"]]
     else:
